@@ -47,6 +47,16 @@ func (h *Handler) HandleOpenDir(ctx *Context, path string) bool {
 		return false
 	}
 
+	// it's crucial to send "true" for directory and "false" for file,
+	// also only directory can be listed, so we don't need to keep anything else (i.e. virtual iso)
+	if !info.IsDir() {
+		if err := handle.Close(); err != nil {
+			log.WarnContext(ctx, "Close of non-directory failed", logutil.ErrorAttr(err))
+		}
+
+		return false
+	}
+
 	if ctx.State.CwdHandle != nil {
 		if err := ctx.State.CwdHandle.Close(); err != nil {
 			log.WarnContext(ctx, "Close ctx.State.CwdHandle failed", logutil.ErrorAttr(err))
@@ -56,8 +66,7 @@ func (h *Handler) HandleOpenDir(ctx *Context, path string) bool {
 
 	ctx.State.CwdHandle = handle
 
-	// it's crucial to send "true" for directory and "false" for file
-	return info.IsDir()
+	return true
 }
 
 func (h *Handler) HandleReadDirEntry(ctx *Context) fs.FileInfo {
